@@ -687,6 +687,7 @@ func c06(r *Run) {
 	c06IncludeMixture(r)
 	c06FallbackOneLookup(r)
 	c06PoolCleanReturn(r)
+	c06PoolCleanContext(r)
 	regFreePairings(r, "conc kind=stale ", "after a registration has returned, a lookup by one of the template's names does not give the version registered under it", 4, r.N(2000, 50000))
 	c06DeepIncludes(r)
 	c06ModelTie(r)
@@ -1474,6 +1475,54 @@ func c06PoolCleanReturn(r *Run) {
 		if res.Panic != "" || strings.Contains(log, "dirtyput") || strings.Contains(log, "putbuf40") || !strings.Contains(log, "rel4") || !strings.Contains(log, "rel7") {
 			r.Violate(sig, "an object acquired during a render was handed back to its pool before it was reset (or not at all)",
 				map[string]any{"event_log": log, "panic": res.Panic, "error": res.ErrStr()})
+		}
+	}
+}
+
+
+// c06PoolCleanContext: a context handed back with ReleaseCtx is CLEAN when the next goroutine acquires it, whatever its
+// last render left behind — also when that render set no variable at all: a deferred function that never ran (the render
+// failed after registering it) must not run in the next user's render, an acquired object must have gone home.
+func c06PoolCleanContext(r *Run) {
+	dirtyA, err, pan := regTpl(`{%= nope|vdefer(7) %}{%= nope|vacquire(8) %}x{% include c06-no-such-template %}`, true)
+	dirtyB, err3, pan3 := regTpl(`{%= nope|vdefer(7) %}{% include c06-no-such-template %}`, true)
+	plain, err2, pan2 := regTpl(`hello`, true)
+	if err != nil || pan != "" || err2 != nil || pan2 != "" || err3 != nil || pan3 != "" {
+		r.Internal("pool-clean-context: sources do not parse")
+		return
+	}
+	for variant := 0; variant < 4; variant++ {
+		dirty := dirtyA
+		if variant >= 2 {
+			// nothing but the deferred function is left behind: no variable, no pooled object, no include writer, no ctx.Err
+			dirty = dirtyB
+		}
+		sig := fmt.Sprintf("pool-clean-context variant=%d", variant)
+		r.Count(sig, true)
+		r.Dist["pool_clean_context"]++
+		evReset()
+		ctx := dyntpl.AcquireCtx()
+		if variant%2 == 1 {
+			ctx.SetString("v", "x")
+		}
+		first := renderSafe(dirty, ctx)
+		dyntpl.ReleaseCtx(ctx)
+		atRelease := evStr()
+		// the pool hands the same object to the next user (one goroutine: sync.Pool's private slot)
+		var second rendered
+		for k := 0; k < 4; k++ {
+			c2 := dyntpl.AcquireCtx()
+			second = renderSafe(plain, c2)
+			dyntpl.ReleaseCtx(c2)
+			if second.Err != nil || second.Panic != "" {
+				break
+			}
+		}
+		after := evStr()
+		evReset()
+		if first.Panic != "" || second.Panic != "" || second.Err != nil || string(second.Out) != "hello" || strings.Contains(after, "ran7") || (variant < 2 && !strings.Contains(atRelease, "rel8")) {
+			r.Violate(sig, "a context taken from the pool carried what an earlier user's failed render had left in it (a deferred function that had never run, a pooled object)",
+				map[string]any{"first_render_error": first.ErrStr(), "event_log_at_release": atRelease, "event_log_after_next_users": after, "next_user_output": string(second.Out), "next_user_error": second.ErrStr()})
 		}
 	}
 }
